@@ -13,14 +13,15 @@ use std::fmt::Write as _;
 use syn::*;
 
 #[derive(Clone, Debug, PartialEq)]
-enum Ty { U8, U32, U64, I32, I64, Bool, W(usize), RMode, Class, F64U, F32U, DecDigits, N, Generic(String), Tuple(Vec<Ty>), Unit, Unknown }
+enum Ty { U8, U32, U64, I32, I64, Bool, W(usize), RMode, Class, F64U, F32U, DecDigits, N, Ord, OptOrd, Hasher, Generic(String), Tuple(Vec<Ty>), Unit, Unknown }
 
 impl Ty {
     fn lean(&self) -> String {
         match self {
             Ty::U8 => "UInt8".into(), Ty::U32 => "UInt32".into(), Ty::U64 => "UInt64".into(), Ty::I32 => "Int32".into(),
             Ty::I64 => "Int64".into(), Ty::Bool => "Bool".into(), Ty::W(n) => format!("U{}", n), Ty::RMode => "RoundingMode".into(), Ty::Class => "ClassTypes".into(),
-            Ty::F64U => "F64U".into(), Ty::F32U => "F32U".into(), Ty::DecDigits => "DecDigits".into(), Ty::N => "Nat".into(), Ty::Generic(g) => format!("{}'", g),
+            Ty::F64U => "F64U".into(), Ty::F32U => "F32U".into(), Ty::DecDigits => "DecDigits".into(), Ty::N => "Nat".into(), Ty::Ord => "Ordering".into(), Ty::OptOrd => "(Option Ordering)".into(),
+            Ty::Hasher => "(List UInt8)".into(), Ty::Generic(g) => format!("{}'", g),
             Ty::Tuple(v) => format!("({})", v.iter().map(|t| t.lean()).collect::<Vec<_>>().join(" × ")),
             Ty::Unit => "Unit".into(), Ty::Unknown => "_".into(),
         }
@@ -65,7 +66,7 @@ const KEYWORDS: &[&str] = &["at", "by", "do", "end", "from", "fun", "have", "in"
     "nomatch", "suffices", "calc", "Type", "Prop", "Sort", "using", "obtain", "exact", "set_option", "default", "infix", "notation", "opaque"];
 
 fn id(s: &str) -> String { if KEYWORDS.contains(&s) { format!("«{}»", s) } else { s.to_string() } }
-fn fn_name(s: &str) -> String { let t = s.trim_start_matches('_'); id(t) }
+fn fn_name(s: &str) -> String { let t = s.trim_start_matches('_').replace("::", "_"); id(&t) }
 
 fn path_str(p: &Path) -> String { p.segments.iter().map(|s| s.ident.to_string()).collect::<Vec<_>>().join("::") }
 
@@ -79,7 +80,11 @@ fn ty_of_type(t: &Type) -> (Ty, bool) {
             let ty = match s.as_str() {
                 "u64" | "BID_UINT64" | "usize" => Ty::U64, "u32" | "BID_UINT32" | "_IDEC_flags" => Ty::U32, "u8" => Ty::U8,
                 "i32" => Ty::I32, "i64" | "BID_SINT64" => Ty::I64, "bool" => Ty::Bool, "u128" => Ty::N,
-                "BID_UINT128" | "d128" => Ty::W(128), "BID_UINT192" => Ty::W(192), "BID_UINT256" => Ty::W(256),
+                "BID_UINT128" | "d128" | "Self" => Ty::W(128), "Ordering" => Ty::Ord, "H" => Ty::Hasher,
+                "Option" => {
+                    let inner = match &p.path.segments.last().unwrap().arguments { PathArguments::AngleBracketed(a) => a.args.first().and_then(|g| if let GenericArgument::Type(t) = g { Some(ty_of_type(t).0) } else { None }), _ => None };
+                    if inner == Some(Ty::Ord) { Ty::OptOrd } else { Ty::Unknown }
+                } "BID_UINT192" => Ty::W(192), "BID_UINT256" => Ty::W(256),
                 "BID_UINT384" => Ty::W(384), "BID_UINT512" => Ty::W(512), "RoundingMode" => Ty::RMode, "ClassTypes" => Ty::Class,
                 "BID_UI64DOUBLE" => Ty::F64U, "BID_UI32FLOAT" => Ty::F32U, "DEC_DIGITS" => Ty::DecDigits,
                 g if g.len() == 1 && g.chars().all(|c| c.is_ascii_uppercase()) => Ty::Generic(g.to_string()),
@@ -155,6 +160,8 @@ impl<'a> FnCtx<'a> {
                 let s = path_str(&p.path);
                 if let Some(t) = env.get(&s) { return Ok(ex(env.lean(&s), t.clone(), false)); }
                 if let Some(v) = s.strip_prefix("RoundingMode::") { return Ok(ex(format!("RoundingMode.{}", v), Ty::RMode, false)); }
+                if let Some(v) = s.strip_prefix("Ordering::") { let l = match v { "Less" => "lt", "Equal" => "eq", "Greater" => "gt", _ => bail!("Ordering variant") }; return Ok(ex(format!("Ordering.{}", l), Ty::Ord, false)); }
+                if s == "None" { return Ok(ex("(none : Option Ordering)".into(), Ty::OptOrd, false)); }
                 if let Some(v) = s.strip_prefix("ClassTypes::") { return Ok(ex(format!("ClassTypes.{}", v), Ty::Class, false)); }
                 match s.as_str() {
                     "i64::MIN" => return Ok(ex("(Int64.ofInt (-9223372036854775808))".into(), Ty::I64, false)),
@@ -284,6 +291,11 @@ impl<'a> FnCtx<'a> {
                     let hs = if h.untyped_lit { format!("({} : UInt64)", h.s) } else { h.s }; let ls = if l.untyped_lit { format!("({} : UInt64)", l.s) } else { l.s };
                     return Ok(ex(format!("(⟨{}, {}⟩ : U128)", ls, hs), Ty::W(128), h.m || l.m));
                 }
+                if f == "Some" {
+                    let a = self.expr(&c.args[0], env)?;
+                    if a.ty != Ty::Ord { bail!("Some of {:?}", a.ty) }
+                    return Ok(ex(format!("(some {})", a.s), Ty::OptOrd, a.m));
+                }
                 if f == "RoundingMode::from" {
                     let a = self.expr(&c.args[0], env)?; let a_s = self.cast(&a, &Ty::U32)?;
                     return Ok(ex(format!("(← RoundingMode.fromU32 {})", paren(&a_s)), Ty::RMode, true));
@@ -309,6 +321,25 @@ impl<'a> FnCtx<'a> {
                 let m = mc.method.to_string();
                 if m == "clone" && mc.args.is_empty() { return self.expr(&mc.receiver, env); }
                 if m == "count" { return self.count_while(mc, env); }
+                {
+                    let save = self.pre.len();
+                    if let Ok(recv) = self.expr(&mc.receiver, env) {
+                        if recv.ty == Ty::W(128) {
+                            let key = format!("d128::{}", m);
+                            if let Some(sig) = self.cx.sigs.get(&key) {
+                                if sig.params.iter().any(|p| p.2) { bail!("method {} with &mut arguments in expression position", key) }
+                                let ret = sig.ret.clone();
+                                let ptys: Vec<Ty> = sig.params.iter().skip(1).map(|p| p.1.clone()).collect();
+                                if ptys.len() != mc.args.len() { bail!("arity of {}", key) }
+                                let mut args = vec![paren(&recv.s)];
+                                for (a, pt) in mc.args.iter().zip(ptys.iter()) { let x = self.expr(a, env)?; args.push(if x.untyped_lit { format!("({} : {})", x.s, pt.lean()) } else { paren(&x.s) }); }
+                                return Ok(ex(format!("(← {} {})", fn_name(&key), args.join(" ")), ret, true));
+                            }
+                            bail!("method d128::{} (not whitelisted)", m)
+                        }
+                    }
+                    self.pre.truncate(save);
+                }
                 if m == "contains" {
                     if let Expr::Paren(p) = &*mc.receiver { if let Expr::Range(rg) = &*p.expr {
                         let x = self.expr(&mc.args[0], env)?;
@@ -347,7 +378,18 @@ impl<'a> FnCtx<'a> {
                 } else { Ok(Ex { s: format!("(if {} then {} else {})", c.s, t.s, f.s), ty, m: c.m, untyped_lit: false }) }
             }
             Expr::Block(b) => self.block_value(&b.block, env),
-            Expr::Macro(m) => { let n = path_str(&m.mac.path); if n == "panic" || n == "unreachable" { Ok(ex("(← throw \"panic\")".into(), Ty::Unknown, true)) } else { bail!("macro {}", n) } }
+            Expr::Macro(m) => {
+                let n = path_str(&m.mac.path);
+                if n == "panic" || n == "unreachable" { Ok(ex("(← throw \"panic\")".into(), Ty::Unknown, true)) }
+                else if n == "matches" {
+                    struct MA(Expr, Pat);
+                    impl syn::parse::Parse for MA { fn parse(i: syn::parse::ParseStream) -> syn::Result<Self> { let e: Expr = i.parse()?; let _: Token![,] = i.parse()?; let p = Pat::parse_multi_with_leading_vert(i)?; Ok(MA(e, p)) } }
+                    let ma: MA = syn::parse2(m.mac.tokens.clone()).map_err(|e| e.to_string())?;
+                    let sc = self.expr(&ma.0, env)?;
+                    let c = self.arm_cond(&ma.1, None, &sc, env)?.unwrap_or_else(|| "true".into());
+                    Ok(ex(c, Ty::Bool, sc.m))
+                } else { bail!("macro {}", n) }
+            }
             _ => bail!("expression form {}", quote::quote!(#e)),
         }
     }
@@ -501,7 +543,15 @@ impl<'a> FnCtx<'a> {
                     }
                 }
                 Stmt::Item(_) => bail!("nested item"),
-                Stmt::Macro(m) => { let nme = path_str(&m.mac.path); if nme == "panic" || nme == "unreachable" { out.lines.push(format!("{}throw \"panic\"", ind)); } else { bail!("macro {}", nme) } }
+                Stmt::Macro(m) => {
+                    let nme = path_str(&m.mac.path);
+                    if nme == "panic" || nme == "unreachable" { out.lines.push(format!("{}throw \"panic\"", ind)); }
+                    else if nme == "matches" && last && m.semi_token.is_none() {
+                        let e = Expr::Macro(ExprMacro { attrs: vec![], mac: m.mac.clone() });
+                        let v = self.expr(&e, env)?;
+                        self.deliver(&v, tail, env, ind, out)?;
+                    } else { bail!("macro {}", nme) }
+                }
             }
         }
         Ok(())
@@ -646,7 +696,8 @@ impl<'a> FnCtx<'a> {
                 let l = self.expr(&b.left, env)?; let r = self.expr(&b.right, env)?;
                 let v = match b.op {
                     BinOp::AddAssign(_) => format!("({} + {})", l.s, r.s), BinOp::SubAssign(_) => format!("({} - {})", l.s, r.s),
-                    BinOp::MulAssign(_) => format!("({} * {})", l.s, r.s), BinOp::BitAndAssign(_) => if l.ty == Ty::Bool { format!("({} && {})", l.s, r.s) } else { format!("({} &&& {})", l.s, r.s) },
+                    BinOp::MulAssign(_) => format!("({} * {})", l.s, r.s), BinOp::DivAssign(_) => format!("({} / {})", l.s, if r.untyped_lit { format!("({} : {})", r.s, l.ty.lean()) } else { r.s.clone() }),
+                    BinOp::RemAssign(_) => format!("({} % {})", l.s, if r.untyped_lit { format!("({} : {})", r.s, l.ty.lean()) } else { r.s.clone() }), BinOp::BitAndAssign(_) => if l.ty == Ty::Bool { format!("({} && {})", l.s, r.s) } else { format!("({} &&& {})", l.s, r.s) },
                     BinOp::BitOrAssign(_) => if l.ty == Ty::Bool { format!("({} || {})", l.s, r.s) } else { format!("({} ||| {})", l.s, r.s) },
                     BinOp::BitXorAssign(_) => if l.ty == Ty::Bool { format!("({} != {})", l.s, r.s) } else { format!("({} ^^^ {})", l.s, r.s) },
                     BinOp::ShlAssign(_) | BinOp::ShrAssign(_) => { let op = if matches!(b.op, BinOp::ShlAssign(_)) { "<<<" } else { ">>>" }; let amt = if r.untyped_lit { r.s.clone() } else { self.cast(&r, &l.ty)? }; format!("({} {} {})", l.s, op, amt) }
@@ -730,6 +781,24 @@ impl<'a> FnCtx<'a> {
                 }
             }
             Expr::Block(b) => { let mut env_b = env.clone(); self.stmts(&b.block.stmts, &mut env_b, ind, out, tail) }
+            Expr::MethodCall(mc) if matches!(tail, Tail::No) && self.expr(&mc.receiver, env).map(|r| r.ty == Ty::Hasher).unwrap_or(false) => {
+                let m = mc.method.to_string();
+                let a = self.expr(&mc.args[0], env)?;
+                let a = if a.untyped_lit { let t = match m.as_str() { "write_u8" => Ty::U8, "write_u32" => Ty::U32, "write_i32" => Ty::I32, "write_u64" => Ty::U64, "write_u128" => Ty::N, _ => Ty::Unknown }; Ex { s: format!("({} : {})", a.s, t.lean()), ty: t, m: false, untyped_lit: false } } else { a };
+                let bytes = match (m.as_str(), &a.ty) {
+                    ("write_u8", Ty::U8) => format!("[{}]", a.s),
+                    ("write_u32", Ty::U32) => format!("(leBytes {}.toNat 4)", paren(&a.s)),
+                    ("write_i32", Ty::I32) => format!("(leBytes (UInt32.ofInt (toI {})).toNat 4)", paren(&a.s)),
+                    ("write_u64", Ty::U64) => format!("(leBytes {}.toNat 8)", paren(&a.s)),
+                    ("write_u128", Ty::N) => format!("(leBytes {} 16)", paren(&a.s)),
+                    _ => bail!("hasher method {} on {:?}", m, a.ty),
+                };
+                let rs = self.expr(&mc.receiver, env)?.s;
+                let st = self.assign_to(&mc.receiver, &format!("({} ++ {})", rs, bytes), env)?;
+                self.flush(ind, out);
+                out.lines.push(format!("{}{}", ind, st));
+                Ok(())
+            }
             Expr::Call(c) => {
                 if self.callee_has_mut(e) || matches!(tail, Tail::No) {
                     let (v, t) = self.call_stmt(c, env, ind, out)?;
@@ -738,7 +807,12 @@ impl<'a> FnCtx<'a> {
                 } else { let v = self.expr(e, env)?; self.deliver(&v, tail, env, ind, out) }
             }
             Expr::Paren(p) => self.stmt_expr(&p.expr, env, ind, out, tail),
-            Expr::Macro(m) => { let n = path_str(&m.mac.path); if n == "panic" || n == "unreachable" { out.lines.push(format!("{}throw \"panic\"", ind)); Ok(()) } else { bail!("macro {}", n) } }
+            Expr::Macro(m) => {
+                let n = path_str(&m.mac.path);
+                if n == "panic" || n == "unreachable" { out.lines.push(format!("{}throw \"panic\"", ind)); Ok(()) }
+                else if n == "matches" && !matches!(tail, Tail::No) { let v = self.expr(e, env)?; self.deliver(&v, tail, env, ind, out) }
+                else { bail!("macro {}", n) }
+            }
             _ => { if matches!(tail, Tail::No) { bail!("statement form {}", quote::quote!(#e)) } let v = self.expr(e, env)?; self.deliver(&v, tail, env, ind, out) }
         }
     }
@@ -756,6 +830,12 @@ impl<'a> FnCtx<'a> {
                 None
             }
             Pat::Or(po) => { let mut parts = Vec::new(); for c in po.cases.iter() { match self.arm_cond(c, None, sc, env)? { Some(s) => parts.push(s), None => return Ok(None) } } Some(format!("({})", parts.join(" || "))) }
+            Pat::TupleStruct(ts) if path_str(&ts.path) == "Some" && sc.ty == Ty::OptOrd && ts.elems.len() == 1 => {
+                let inner_sc = ex("o__".into(), Ty::Ord, false);
+                let ic = self.arm_cond(&ts.elems[0], None, &inner_sc, env)?.unwrap_or_else(|| "true".into());
+                Some(format!("(match {} with | some o__ => {} | none => false)", sc.s, ic))
+            }
+            Pat::Path(pp) if path_str(&pp.path) == "None" && sc.ty == Ty::OptOrd => Some(format!("({}).isNone", sc.s)),
             Pat::Path(pp) => { let v = self.expr(&Expr::Path(ExprPath { attrs: vec![], qself: None, path: pp.path.clone() }), env)?; Some(format!("({} == {})", sc.s, v.s)) }
             Pat::Lit(pl) => { let v = self.expr(&Expr::Lit(ExprLit { attrs: vec![], lit: pl.lit.clone() }), env)?; Some(format!("({} == {})", sc.s, v.s)) }
             Pat::Range(pr) => {
@@ -853,6 +933,7 @@ fn main() {
     let mut files: Vec<_> = std::fs::read_dir(srcdir).unwrap().map(|e| e.unwrap().path()).filter(|p| p.extension().map(|e| e == "rs").unwrap_or(false)).collect();
     files.sort();
     let mut fn_src: HashMap<String, String> = HashMap::new();
+    let mut ambiguous: HashSet<String> = HashSet::new();
     for p in files {
         let name = p.file_name().unwrap().to_string_lossy().to_string();
         if ["verif_hooks.rs", "sqlx_postgres.rs", "serde.rs", "lib.rs"].contains(&name.as_str()) { continue; }
@@ -869,7 +950,7 @@ fn main() {
                 Item::Static(s) => { let n = s.ident.to_string(); register_const_or_table(&mut cx, n, &s.ty, Some(*s.expr)); }
                 Item::Impl(im) => {
                     let tyname = match &*im.self_ty { Type::Path(p) => path_str(&p.path), _ => continue };
-                    if im.trait_.is_some() { continue; }
+                    if im.trait_.is_some() && tyname != "d128" { continue; }
                     for ii in im.items.iter() {
                         if let ImplItem::Fn(f) = ii {
                             if tyname == "d128" && f.sig.ident == "new" {
@@ -879,6 +960,16 @@ fn main() {
                                     let ps: Vec<String> = f.sig.inputs.iter().filter_map(|a| if let FnArg::Typed(pt) = a { if let Pat::Ident(pi) = &*pt.pat { Some(pi.ident.to_string()) } else { None } } else { None }).collect();
                                     if ps.len() == 2 && t == format!("Self{{w:[{},{}]}}", ps[1], ps[0]) { cx.new_is_lh = true; }
                                 }
+                            }
+                        }
+                    }
+                    if tyname == "d128" {
+                        for ii in im.items.iter() {
+                            if let ImplItem::Fn(f) = ii {
+                                let key = format!("d128::{}", f.sig.ident);
+                                if cx.fns.contains_key(&key) { ambiguous.insert(key.clone()); }
+                                fn_src.insert(key.clone(), name.clone());
+                                cx.fns.insert(key, ItemFn { attrs: f.attrs.clone(), vis: Visibility::Inherited, sig: f.sig.clone(), block: Box::new(f.block.clone()) });
                             }
                         }
                     }
@@ -897,8 +988,12 @@ fn main() {
                 let n = match &*pt.pat { Pat::Ident(pi) => pi.ident.to_string(), _ => "_".into() };
                 let (t, m) = ty_of_type(&pt.ty);
                 params.push((n, t, m));
+            } else if let FnArg::Receiver(rc) = a {
+                if rc.mutability.is_some() { eprintln!("translate: &mut self in {}", w); std::process::exit(2); }
+                params.push(("self".to_string(), Ty::W(128), false));
             }
         }
+        if ambiguous.contains(w) { eprintln!("translate: method name {} is defined by several impls", w); std::process::exit(2); }
         let ret = match &f.sig.output { ReturnType::Default => Ty::Unit, ReturnType::Type(_, t) => ty_of_type(t).0 };
         cx.sigs.insert(w.clone(), FnSig { params, ret });
     }
@@ -943,7 +1038,7 @@ fn main() {
             Ok(()) => {
                 let mut s = String::new();
                 let _ = writeln!(s, "/-- `{}` ({}) -/", name, fn_src.get(name).cloned().unwrap_or_default());
-                let gens: Vec<String> = f.sig.generics.type_params().map(|tp| format!("{{{}' : Type}} [Inhabited {}']", tp.ident, tp.ident)).collect();
+                let gens: Vec<String> = f.sig.generics.type_params().filter(|tp| tp.ident != "H").map(|tp| format!("{{{}' : Type}} [Inhabited {}']", tp.ident, tp.ident)).collect();
                 let _ = writeln!(s, "def {} {} {} : Except String {} := do", fn_name(name), gens.join(" "), header_params.join(" "), rty);
                 for l in &prologue { let _ = writeln!(s, "{}", l); }
                 for l in &out.lines { let _ = writeln!(s, "{}", l); }
